@@ -375,18 +375,22 @@ func (e c13Engine) RunSeed(tier string, seed uint64, idx int) *core.Result {
 			if trace[at].Kind == "write" && trace[at].Len > 0 {
 				torn = rng.Intn(trace[at].Len)
 			}
-			for kill := -1; kill <= 10; kill++ {
+			for kill := -2; kill <= 10; kill++ {
 				fs := []simos.Fault{{AtOp: at, Kind: kind, Torn: torn}}
 				if kill >= 0 {
 					fs = append(fs, simos.Fault{AtOp: at + 1 + kill, Kind: "kill"})
 				}
+				// kill == -2: no kill, and a caller that ignores the error it
+				// was given and carries on with the File it holds
+				drive := tgt
+				drive.Careless = kill == -2
 				r.setFile(path, r.lastPre, r.lastPreOK)
-				_, _, pnc, p := r.putFaults(tgt, fs, nil)
+				_, _, pnc, p := r.putFaults(drive, fs, nil)
 				r.countFaults(p)
 				fcopy := append([]simos.Fault(nil), fs...)
 				mk := func() *libScenario {
 					c := *sc
-					op := tgt
+					op := drive
 					op.Faults = fcopy
 					c.Ops = append(append([]libOp(nil), base...), op)
 					return &c
@@ -396,7 +400,7 @@ func (e c13Engine) RunSeed(tier string, seed uint64, idx int) *core.Result {
 					continue
 				}
 				opened := r.check(ti, mk)
-				r.key(fmt.Sprintf("ioerror|%s|%s|%s@%s|then-kill=%v|open=%v", sc.Hash, bclass, kind, trace[at].Kind, kill >= 0, opened))
+				r.key(fmt.Sprintf("ioerror|%s|%s|%s@%s|then-kill=%v|careless=%v|open=%v", sc.Hash, bclass, kind, trace[at].Kind, kill >= 0, kill == -2, opened))
 			}
 		}
 	}
